@@ -1296,6 +1296,15 @@ private:
 
   bool doAddListener(const ListenerCfg &lc)
   {
+    // A listener requested with TLS must never accept clear-text sessions: without
+    // a server TLS context (serverTls.enabled with defaultMode == Server) refuse the
+    // listener instead of silently serving plaintext.
+    if (lc.tls != TlsMode::None && !(lc.tls == TlsMode::Server && _sslSrv))
+    {
+      err(TransportError::Config, "TLS listener requested but server TLS is not configured");
+      return false;
+    }
+
     int sfd = -1;
     sockaddr_storage ss{};
     socklen_t sl = 0;
@@ -1461,6 +1470,19 @@ private:
 
   bool doConnect(const ConnectReq &cr)
   {
+    // A session requested with TLS must never run in clear text: without a client
+    // TLS context (clientTls.enabled with defaultMode == Client) fail the connect
+    // instead of silently downgrading to plaintext.
+    if (cr.tls != TlsMode::None && !(cr.tls == TlsMode::Client && _sslCli))
+    {
+      const std::string msg = "TLS requested but client TLS is not configured";
+      decltype(_cbs.onClose) closeCb;
+      { std::lock_guard<std::mutex> g(_cbMutex); closeCb = _cbs.onClose; }
+      if (closeCb) closeCb(cr.sid, TransportErrorInfo{TransportError::Config, msg});
+      err(TransportError::Config, msg);
+      return false;
+    }
+
     addrinfo hints{};
     hints.ai_family = AF_UNSPEC;
     hints.ai_socktype = SOCK_STREAM;
